@@ -6,9 +6,7 @@ package linkedhashmap
 
 import (
 	"bytes"
-	"cmp"
 	"encoding/json"
-	"slices"
 
 	"github.com/emirpasic/gods/v2/containers"
 )
@@ -70,22 +68,36 @@ func (m *Map[K, V]) FromJSON(data []byte) error {
 		return err
 	}
 
-	index := make(map[K]int)
+	// the order of the members is the order of the tokens in the document
 	var keys []K
-	for key := range elements {
-		keys = append(keys, key)
-		esc, _ := json.Marshal(key)
-		index[key] = bytes.Index(data, esc)
+	seen := make(map[K]struct{})
+	decoder := json.NewDecoder(bytes.NewReader(data))
+	if token, err := decoder.Token(); err == nil && token == json.Delim('{') {
+		for decoder.More() {
+			token, err := decoder.Token()
+			if err != nil {
+				return err
+			}
+			name, _ := json.Marshal(token)
+			var value json.RawMessage
+			if err := decoder.Decode(&value); err != nil {
+				return err
+			}
+			// let encoding/json convert the member name to a key of type K
+			var member map[K]json.RawMessage
+			if err := json.Unmarshal([]byte("{"+string(name)+":null}"), &member); err != nil {
+				return err
+			}
+			for key := range member {
+				if _, duplicate := seen[key]; !duplicate {
+					seen[key] = struct{}{}
+					keys = append(keys, key)
+				}
+			}
+		}
 	}
-
-	byIndex := func(key1, key2 K) int {
-		return cmp.Compare(index[key1], index[key2])
-	}
-
-	slices.SortFunc(keys, byIndex)
 
 	m.Clear()
-
 	for _, key := range keys {
 		m.Put(key, elements[key])
 	}
